@@ -68,6 +68,11 @@ func (sc scenario) run(t *testing.T, cfg vs.Config) explore.Exec {
 		val int
 		err error
 	}
+	type stateMsg struct {
+		live   console.TaskStateMap
+		atSend map[int]string
+	}
+	var sent []stateMsg
 	returned := map[int]ret{}
 	ev := func(format string, a ...any) { trace = append(trace, fmt.Sprintf(format, a...)) }
 	res := vs.Run(t, cfg, func() {
@@ -75,7 +80,18 @@ func (sc scenario) run(t *testing.T, cfg vs.Config) explore.Exec {
 		config.Global.NumWorkers = sc.Workers
 		ctx, cancel := context.WithCancel(console.WithLogger(context.Background(), nopLogger))
 		defer cancel()
-		p := worker.NewTaskWorkerPool[int](nopLogger, sc.Workers, func(tea.Msg) {}, sc.Callers)
+		// like the task UI: keep what the pool sends; a message is a snapshot, the sender must not change it afterwards
+		p := worker.NewTaskWorkerPool[int](nopLogger, sc.Workers, func(m tea.Msg) {
+			if st, ok := m.(console.TaskStateMsg); ok {
+				cp := map[int]string{}
+				for k, v := range st.State {
+					cp[k] = v.Status
+				}
+				mu.Lock()
+				sent = append(sent, stateMsg{live: st.State, atSend: cp})
+				mu.Unlock()
+			}
+		}, sc.Callers)
 		p.StartWorkers(ctx)
 		var wg sync.WaitGroup
 		for i := 0; i < sc.Callers; i++ {
@@ -147,6 +163,18 @@ func (sc scenario) run(t *testing.T, cfg vs.Config) explore.Exec {
 	defer mu.Unlock()
 	for _, p := range res.Panics {
 		add("C04:panic", "%s; trace %v", p, trace)
+	}
+	for _, m := range sent {
+		same := len(m.live) == len(m.atSend)
+		for k, v := range m.live {
+			if m.atSend[k] != v.Status {
+				same = false
+			}
+		}
+		if !same {
+			add("C04:task-state-message-aliases-the-pools-live-map", "a task-state message sent to the UI changed after it was sent (%d entries then, %d now): the UI goroutine iterates a map that the workers keep writing (fatal 'concurrent map iteration and map write' in some schedule)", len(m.atSend), len(m.live))
+			break
+		}
 	}
 	if maxRunning > sc.Workers {
 		add("C03:more-than-num-workers-running", "%d tasks ran at the same time in a pool of %d workers; trace %v", maxRunning, sc.Workers, trace)
